@@ -83,6 +83,13 @@ Marks(cur) ==
           ELSE (IF bN # bB THEN {"blend-mode-differs"} ELSE {})
                \cup (IF rN # rB THEN {"rectangle-differs"} ELSE {})
                \cup (IF bB /\ SubImage(dB, cur, TRUE) # cur THEN {"transparency-increased"} ELSE {})
+               \* the previous frame is a band (as wide as the canvas but not as high, or the other way round) and
+               \* something outside it has to survive its disposal
+               \cup (IF ((prevRect[3] - prevRect[1] = CW) # (prevRect[4] - prevRect[2] = CH))
+                         /\ (\E p \in Pos : ~InR(p, prevRect) /\ target[p][4] # 0)
+                     THEN {"dispose-after-band"} \cup
+                          (IF (rB[3] - rB[1]) * (rB[4] - rB[2]) < (rN[3] - rN[1]) * (rN[4] - rN[2]) THEN {"dispose-wins-after-band"} ELSE {})
+                     ELSE {})
 AddFrame(tok) ==
   LET cur == Val(tok) IN
   /\ nf < MAXF
@@ -124,5 +131,5 @@ PlaybackExact == nf > 0 => SamePic(shown, target)
 \* the rectangle always lies in the canvas and has even offsets (container: offsets are stored halved)
 RectOK == prevRect[1] % 2 = 0 /\ prevRect[2] % 2 = 0 /\ prevRect[1] >= 0 /\ prevRect[3] <= CW /\ prevRect[4] <= CH
           /\ prevRect[1] < prevRect[3] /\ prevRect[2] < prevRect[4]
-Emit == (GEN /\ nf = MAXF /\ (~DIRECTED \/ "blend-mode-differs" \in marks)) => PrintT(<<"CASE", ToJson([cw |-> CW, ch |-> CH, marks |-> SetToSeq(marks), pics |-> [i \in 1..Len(hist) |-> [k \in 1..(CW * CH) |-> hist[i][<<(k - 1) % CW, (k - 1) \div CW>>]]]])>>)
+Emit == (GEN /\ nf = MAXF /\ (DIRECTED = "" \/ DIRECTED \in marks)) => PrintT(<<"CASE", ToJson([cw |-> CW, ch |-> CH, marks |-> SetToSeq(marks), pics |-> [i \in 1..Len(hist) |-> [k \in 1..(CW * CH) |-> hist[i][<<(k - 1) % CW, (k - 1) \div CW>>]]]])>>)
 =============================================================================
